@@ -284,7 +284,9 @@ def chase_def(body, op, depth=6):
 _BP_EMPTY = re.compile(r'Vec::<T>::(new|with_capacity)$|Vec::<T, A>::(new_in|with_capacity_in)$|String::new$')
 _BP_APPEND = re.compile(r'Vec::<T, A>::(extend_from_slice|append|push)$|Extend<.*>>::extend$|io::Write>::write_all$|std::io::Write::write_all$')
 _BP_CONCAT = re.compile(r'slice::<impl \[T\]>::concat$|Concat<.*>>::concat$')
-_BP_THROUGH = re.compile(r'::to_vec$|::to_owned$|::clone$|::as_slice$|::as_ref$|::deref$|::deref_mut$|::into_vec$|::as_mut_slice$|Cursor::<T>::(new|into_inner|get_ref)$|::borrow$|::into$|::from$|::as_bytes$')
+_BP_THROUGH = re.compile(r'::to_vec$|::to_owned$|::clone$|::as_slice$|::as_ref$|::deref$|::deref_mut$|::into_vec$|::as_mut_slice$|Cursor::<T>::(new|into_inner|get_ref)$|::borrow$|::into$|::from$|::as_bytes$|'
+                         r'Iterator::(collect|cloned|copied)$|<impl \[T\]>::iter$|IntoIterator>::into_iter$|Vec::<T, A>::iter$')
+_BP_CHAIN = re.compile(r'Iterator::chain$')
 
 
 def byte_parts(e, depth=0):
@@ -320,6 +322,9 @@ def byte_parts(e, depth=0):
             return [e]
         if _BP_THROUGH.search(e[1]) and len(e[3]) == 1:
             return byte_parts(e[3][0], depth + 1)
+        if _BP_CHAIN.search(e[1]) and len(e[3]) == 2:
+            # a.iter().chain(b.iter()).cloned().collect(): a followed by b
+            return byte_parts(e[3][0], depth + 1) + byte_parts(e[3][1], depth + 1)
         return [e]
     if e[0] == 'mutated' and _BP_APPEND.search(e[1]):
         prev = byte_parts(e[3], depth + 1) if e[3] is not None else [('unknown', 'no previous value')]
